@@ -84,6 +84,7 @@ def main(argv=None):
         print('replay: property %s held on %s' % (prop, args.replay))
         return 0
 
+    os.environ['VERIF_TIER_RUNNING'] = args.tier
     ctx = core.Ctx(prop, args.tier, seed, args.jobs)
     try:
         mod.run(ctx)
